@@ -13,6 +13,7 @@ mod c09;
 mod c16;
 mod c19;
 mod dist;
+mod extras;
 mod pipe;
 mod readers;
 mod scan;
@@ -59,6 +60,7 @@ fn main() {
                 "C09" => c09::record_c09(&mut rec, seed, thorough),
                 "C14" => readers::record_c14(&mut rec, seed, thorough),
                 "C16" => c16::record(&mut rec, seed, thorough),
+                "extras" => extras::record(&mut rec, seed, thorough),
                 "C11" => dist::record_c11(&mut rec, seed, thorough),
                 "C12" => dist::record_c12(&mut rec, seed, thorough),
                 "C13" => dist::record_c13(&mut rec, seed, thorough),
